@@ -4,6 +4,8 @@ package engines
 
 import (
 	"fmt"
+	"os"
+	"path/filepath"
 	"reflect"
 	"regexp"
 	"runtime"
@@ -121,6 +123,7 @@ type gcGen struct {
 	budget int
 	depth  int
 	nctx   int
+	files  bool
 }
 
 func (g *gcGen) ln(f string, a ...interface{}) {
@@ -154,9 +157,10 @@ func (g *gcGen) stmts(n int) {
 		if g.budget < 0 {
 			return
 		}
-		w := []int{5, 3, 3, 3, 3, 2, 2, 2, 1, 3, 1}
+		w := []int{5, 3, 3, 3, 3, 2, 2, 2, 1, 3, 1, 2}
 		if g.depth >= 1 {
 			w[10] = 0
+			w[11] = 0 // the io library is not allowed under limits
 		}
 		if g.depth >= 2 {
 			w[6], w[7] = 0, 0
@@ -239,6 +243,22 @@ func (g *gcGen) stmts(n int) {
 			}
 			g.ind--
 			g.ln(`end`)
+		case 11: // files opened through the io library and never closed by the script
+			g.files = true
+			// (io.lines(name) is left out: golua keeps that file in a Go closure, not in a userdata, so the
+			// property's release clause does not cover it - it stays open until read to the end)
+			switch g.t.Choose(5) {
+			case 0:
+				g.ln(`io.input(FILE_IN)`)
+			case 1:
+				g.ln(`io.output(FILE_OUT)`)
+			case 2:
+				g.ln(`do local f = io.open(FILE_IN) end`)
+			case 3:
+				g.ln(`KEEP[#KEEP + 1] = io.open(FILE_IN)`)
+			default:
+				g.ln(`do local f = io.open(FILE_OUT, "a") f:write("x") end`)
+			}
 		case 8: // unlimited context shares the pool of its parent
 			g.depth++
 			g.ln(`emit("sharedctx", runtime.callcontext({}, function()`)
@@ -325,6 +345,14 @@ func runGC(ctx *core.RunCtx) {
 			ctx.Count("fault.gc-deliver at a host callback", 1)
 		}
 	}
+	scratch := ""
+	if g.files {
+		scratch, _ = os.MkdirTemp("/var/tmp", "vsim-gcfiles-")
+		os.WriteFile(filepath.Join(scratch, "in.txt"), []byte("line1\nline2\nline3\n"), 0o644)
+		h.R.GlobalEnv().Set(rt.StringValue("FILE_IN"), rt.StringValue(filepath.Join(scratch, "in.txt")))
+		h.R.GlobalEnv().Set(rt.StringValue("FILE_OUT"), rt.StringValue(filepath.Join(scratch, "out.txt")))
+		defer os.RemoveAll(scratch)
+	}
 	out := h.Run("sim", src)
 	h.OnEmit = nil
 	s.Drain()
@@ -338,6 +366,18 @@ func runGC(ctx *core.RunCtx) {
 	h.Note("closing")
 	pan := h.Close()
 	h.Note("closed")
+	// X6: a file the script opened and never closed is closed with the runtime at the latest
+	stillOpen := ""
+	if scratch != "" {
+		if ents, err := os.ReadDir("/proc/self/fd"); err == nil {
+			for _, e := range ents {
+				if l, err := os.Readlink("/proc/self/fd/" + e.Name()); err == nil && strings.HasPrefix(l, scratch) {
+					stillOpen = l
+				}
+			}
+		}
+		ctx.Count("probe.scripts leaving files open", 1)
+	}
 	// whatever is still in limbo is delivered too late (after the pools were closed)
 	col.barrier()
 	late := col.pending()
@@ -356,6 +396,10 @@ func runGC(ctx *core.RunCtx) {
 	}
 	if out.Err != nil {
 		ctx.Fail("C18", "C18.H", "script-error", "generated script failed: %s", out.String())
+		return
+	}
+	if stillOpen != "" {
+		ctx.Fail("C18", "C18.X6", "file-open-after-close", "%s (opened through the io library, never closed by the script) is still open after Runtime.Close", filepath.Base(stillOpen))
 		return
 	}
 
